@@ -42,6 +42,13 @@ def rowOf (w : String) : List Cell :=
   | some r => r.cells
   | none => []
 
+/-- the formatted line of writer `w` that has a cell named `field` -/
+def rowWith (w field : String) : List Cell :=
+  match rows.find? (fun r => r.writer = w && r.cells.any fun c =>
+      match c with | .fld n _ => n = field | _ => false) with
+  | some r => r.cells
+  | none => []
+
 /-! ### sorting (`sorted(site_info.keys())`: Python compares `str` by code point) -/
 
 def strLe (a b : Str) : Bool := !(b < a)
@@ -132,14 +139,14 @@ def specOf (name : String) : Option Spec := dataTypes.lookup name
 def tmsHeader (cols : List String) : Option Str :=
   (cols.mapM fun c => (specOf c).map fun sp =>
       " _".toList ++ c.toList ++ List.replicate ((sp.width - 2) - c.length) '_').map
-    fun parts => '*' :: parts.flatten
+    fun (parts : List Str) => '*' :: parts.flatten
 
 /-- one data line: a blank, then the cells one after the other without separator -/
 def tmsLine (cols : List String) (vals : Env) : Option Str :=
   (cols.mapM fun c => do
       let sp ← specOf c
       let v ← vals.lookup c
-      if v.okFor sp then pure (fmtValue sp v) else none).map fun parts => ' ' :: parts.flatten
+      if v.okFor sp then pure (fmtValue sp v) else none).map fun (parts : List Str) => ' ' :: parts.flatten
 
 /-- the data lines: epochs in ascending order; for an epoch that occurs several times the writer
 prints the *first* matching row each time (`…[idx][0]`) -/
@@ -179,6 +186,7 @@ def csvCell : CsvFmt → Value → Option Str
   | .d, .int i => some (fmtInt i)
   | .f p, .num q => some (fmtFixedCore q p)
   | .f _, .nan => some "nan".toList
+  | .f p, .negz => some ('-' :: fmtFixedCore 0 p)
   | _, _ => none
 
 def joinWith (sep : Char) : List Str → Str
